@@ -334,6 +334,58 @@ def do(op: dict) -> str:
         except Exception as e:  # noqa: BLE001
             return f"error={err_class(e)} msg={str(e)[:60].replace(' ', '_').replace('=', ':')}"
         return "ok " + state_line(kind, sv, False, 0, [])
+    if o == "construct":
+        import importlib
+        import tempfile as _tf
+        import shutil as _sh
+        kind = op["solver"]
+        cls = solver_class(kind)
+        params = dict(op["params"])
+        mod, pcls = op["problem"]["target"].rsplit(".", 1)
+        PCls = getattr(importlib.import_module(mod), pcls)
+        pkw = op["problem"].get("kwargs", {})
+        route = op["route"]
+        tmpd = None
+        try:
+            if route == "kwargs":
+                sv = cls(PCls(**pkw), **params)
+            elif route == "config":
+                if op.get("bad_problem"):
+                    sv = cls(config=cls.Config(problem={"not": "a config"}, **params))
+                else:
+                    sv = cls(config=cls.Config(problem=PCls.Config(**pkw), **params))
+            else:
+                from hydra.utils import instantiate
+                from omegaconf import OmegaConf
+                tmpd = _tf.mkdtemp(prefix="mdpaxv_c20_")
+                first = cls(PCls(**pkw), **dict(params, checkpoint_dir=tmpd, checkpoint_frequency=1))
+                cfg = OmegaConf.load(os.path.join(tmpd, "config.yaml"))
+                cfg.checkpoint_frequency = params.get("checkpoint_frequency", 0)
+                sv = instantiate(cfg)
+        except Exception as e:  # noqa: BLE001
+            if tmpd:
+                _sh.rmtree(tmpd, ignore_errors=True)
+            return f"construct=error:{err_class(e)} msg={str(e)[:70].replace(' ', '_').replace('=', ':')}"
+        if tmpd:
+            _sh.rmtree(tmpd, ignore_errors=True)
+        out = f"construct=ok thr={frac(Fraction(float(sv.conv_threshold)))} gamma_dtype={jnp.asarray(sv.gamma).dtype}"
+        try:
+            st = sv.solve(op.get("k", 3))
+        except Exception as e:  # noqa: BLE001
+            return out + f" solve=error:{err_class(e)} msg={str(e)[:70].replace(' ', '_').replace('=', ':')}"
+        return out + f" solve=ok iter={int(st.info.iteration)} values_dtype={st.values.dtype} values={fvals(st.values)} policy={policy_idx(sv.problem, st.policy)}"
+    if o == "pconstruct":
+        import importlib
+        mod, pcls = op["target"].rsplit(".", 1)
+        PCls = getattr(importlib.import_module(mod), pcls)
+        try:
+            if op.get("via") == "config":
+                PCls.Config(**op["kwargs"])
+            else:
+                PCls(**op["kwargs"])
+        except Exception as e:  # noqa: BLE001
+            return f"error={err_class(e)}"
+        return "ok"
     if o == "configdump":
         from omegaconf import OmegaConf
         kind, sv = SOLVERS[op["sid"]]
